@@ -153,6 +153,7 @@ class Run:
     def violate(self, invariant, site, detail, step=None):
         """Record a violation.  `invariant`+`site` form the signature (what
         known_findings.json matches on); `detail` is free-form data."""
+        site = str(site).replace(" ", "-")
         self.violations.append(
             {
                 "invariant": invariant,
